@@ -25,6 +25,8 @@ CONFIG = {'assumptions': [
     'iter_versions observed twice: each auxiliary iterator consumed before the next entry is requested (what the model '
     'transliterates), and, on in-domain inputs, all pairs collected first and the iterators consumed afterwards in '
     'reverse order (must give the same entries and chains)',
+    'ELFFile keeps no state between section instantiations in the model (the code has none); the combined stream '
+    'pins that by instantiating several version sections from one ELFFile in both orders',
     'an entry "carries" an index when its vd_ndx / vna_other field EQUALS it (hidden bit included, no masking)']}
 LEVEL = {'text': 'Machine-checked theorems, for ALL images and header tables satisfying a boolean layout predicate '
                  '(record i sits at the offset reached by following the next/aux displacements; anything else in the '
@@ -39,7 +41,8 @@ LEVEL = {'text': 'Machine-checked theorems, for ALL images and header tables sat
                  'returns the first entry in link order carrying the index or None; has_indexes (first and memoised call) '
                  'equals "some auxiliary has a non-zero index". Record layouts and the versym Enum table are regenerated '
                  'from the live construct trees and proved equal to the standard tables; the hand model is pinned to the '
-                 'code by a differential correspondence on padded, interleaved, shared and zero-link-ended chains.',
+                 'code by a differential correspondence on padded, interleaved, shared and zero-link-ended chains, and on '
+                 'files holding all three sections with different linked string tables, read through one ELFFile.',
          'design_ref': '4.15', 'technique': 'Coq proof (generic layout round trip + induction over link chains) + '
                                             'extracted-model correspondence on synthesized ELF images',
          'note': 'Trusted: Coq kernel, ExtrOcamlBasic extraction, harness (image assembly, Container->S-expression '
@@ -57,7 +60,11 @@ RULE = ('cases: version-definition / version-requirement sections with 0..14 ent
         'version-symbol tables of 0..300 symbols with arbitrary index/hidden bit, reserved values, strides >= entry size, '
         'over symbol tables of the same or a larger (0..4 more) symbol count; '
         'both classes and byte orders, sections and header table in random file order at unaligned offsets, names 0..130 '
-        'bytes of 1-4 byte UTF-8; plus a malformed stream (zero counts, counts running into garbage, zero links on '
+        'bytes of 1-4 byte UTF-8; a combined stream: ONE file holding .gnu.version_d, .gnu.version_r and .gnu.version '
+        '(+ symbol table), each linked to its own string table (independent tables, same-layout twins with different '
+        'strings at the same offsets, or partly shared), the three sections instantiated from ONE ELFFile object '
+        '(get_section / iter_sections / get_section_by_name) in a random order and, on a second ELFFile, in the '
+        'reverse order, all instantiated before any is observed, each compared with its own spec; plus a malformed stream (zero counts, counts running into garbage, zero links on '
         'non-last entries / auxiliaries counted several times, truncated files, '
         'wrong link types, zero entry size) compared impl vs model only. distinct = hash(kind, abstract); non-trivial = '
         'at least 2 records walked or a malformed / ended case')
@@ -169,11 +176,22 @@ def _place_chains(rng, counts, esz, asz, mode):
     return ent_off, aux_off, pos + gap()
 
 
-def _gen_chain_case(rng, kind, big):
-    """kind: 'verdef' | 'verneed'.  Returns the abstract case."""
+def _twin_table(blob, refs):
+    """a string table with the SAME layout (same NUL positions, same offsets) holding DIFFERENT strings: every ASCII
+    character is replaced by another one, multi-byte sequences stay (still valid UTF-8)"""
+    def tw(b):
+        return bytes((0x21 + (x - 0x21 + 47) % 94) if 0x21 <= x <= 0x7e else x for x in b)
+    return tw(blob), [(off, tw(nm)) for off, nm in refs]
+
+
+def _gen_chain_case(rng, kind, big, cfg=None, tab=None):
+    """kind: 'verdef' | 'verneed'.  Returns the abstract case.  cfg = (le, is64, machine) and tab = (strtab, refs)
+    are drawn here unless given (several sections of one file)."""
     le = rng.random() < 0.5
     is64 = rng.random() < 0.5
     machine = rng.choice(MACHINES)
+    if cfg:
+        le, is64, machine = cfg
     r = rng.random()
     n = 0 if r < 0.05 else 1 if r < 0.2 else rng.randint(2, 6) if r < 0.85 else rng.randint(7, 14 if not big else 40)
     counts = []
@@ -183,7 +201,7 @@ def _gen_chain_case(rng, kind, big):
     mode = rng.choice(['dense', 'gaps', 'gaps', 'interleaved', 'interleaved'])
     esz, asz = (SIZES['verdef'], SIZES['verdaux']) if kind == 'verdef' else (SIZES['verneed'], SIZES['vernaux'])
     ent_off, aux_off, size = _place_chains(rng, counts, esz, asz, mode)
-    strtab, refs = _strtab(rng, rng.randint(1, 6) + sum(counts) // 2)
+    strtab, refs = tab or _strtab(rng, rng.randint(1, 6) + sum(counts) // 2)
     idx_mode = rng.choice(['zero', 'small', 'any', 'any', 'any'])
     entries = []
     for i in range(n):
@@ -319,14 +337,18 @@ def _malform_chain(rng, case, kind):
     return case
 
 
-def _gen_versym_case(rng, big):
+def _gen_versym_case(rng, big, cfg=None, tab=None):
     le = rng.random() < 0.5
     is64 = rng.random() < 0.5
     machine = rng.choice(MACHINES)
+    if cfg:
+        le, is64, machine = cfg
     r = rng.random()
     n = 0 if r < 0.06 else 1 if r < 0.15 else rng.randint(2, 12) if r < 0.8 else rng.randint(13, 60) if r < 0.95 \
         else rng.choice([255, 256, 257, 300, 511, 513, rng.randint(100, 300 if not big else 1500)])
-    strtab, refs = _strtab(rng, rng.randint(1, 8) + n // 3)
+    if cfg:
+        n = min(n, 12)
+    strtab, refs = tab or _strtab(rng, rng.randint(1, 8) + n // 3)
     symsz = 24 if is64 else 16
     vs_ent = 2 if rng.random() < 0.85 else rng.choice([3, 4, 7])
     sym_ent = symsz if rng.random() < 0.85 else symsz + rng.choice([1, 4, 8])
@@ -379,6 +401,52 @@ def _malform_versym(rng, case):
     return case
 
 
+COMBO_ROLES = ['shstr', 'vdef', 'vneed', 'versym', 'symtab', 'strd', 'strn', 'strs']
+
+
+def _gen_combo_case(rng, big):
+    """ONE file holding .gnu.version_d, .gnu.version_r and .gnu.version (+ its symbol table), each name-resolving
+    section linked to its OWN string table.  The three tables are independent, or same-layout twins (different
+    strings at the same offsets), or (sometimes) shared.  [order] is the order in which the three sections are
+    instantiated from one ELFFile (the harness also runs the reverse order), [how] the way they are obtained."""
+    cfg = (rng.random() < 0.5, rng.random() < 0.5, rng.choice(MACHINES))
+    tabs = rng.choice(['twins', 'twins', 'independent', 'independent', 'shared_dn', 'shared_ds'])
+    td = _strtab(rng, rng.randint(2, 9))
+    if tabs == 'twins':
+        tn = _twin_table(*td)
+        ts = _twin_table(*tn)
+    elif tabs == 'independent':
+        tn, ts = _strtab(rng, rng.randint(2, 9)), _strtab(rng, rng.randint(2, 9))
+    elif tabs == 'shared_dn':
+        tn, ts = td, _twin_table(*td)
+    else:
+        tn, ts = _twin_table(*td), td
+    d = _gen_chain_case(rng, 'verdef', False, cfg, td)
+    while not d[3]:
+        d = _gen_chain_case(rng, 'verdef', False, cfg, td)
+    n = _gen_chain_case(rng, 'verneed', False, cfg, tn)
+    while not n[3]:
+        n = _gen_chain_case(rng, 'verneed', False, cfg, tn)
+    v = _gen_versym_case(rng, False, cfg, ts)
+    order = ['vdef', 'vneed', 'versym']
+    rng.shuffle(order)
+    how = rng.choice(['get_section', 'get_section', 'iter_sections', 'by_name'])
+    plan = _file_plan(rng, COMBO_ROLES)
+    return [cfg[0], cfg[1], cfg[2],
+            [d[3], d[4], d[5], d[7]], [n[3], n[4], n[5], n[7]],
+            [v[3], v[4], v[5], v[6], v[7], v[8], v[9]],
+            plan, order, how, tabs, ['none']]
+
+
+def _malform_combo(rng, case):
+    """one of the three string tables gets a non-STRTAB type: instantiating the section(s) linked to it must fail,
+    the others must not be affected (impl vs model only)"""
+    case = list(case)
+    case[8] = 'get_section'
+    case[10] = ['linktype', rng.choice(['strd', 'strn', 'strs']), rng.choice([SHT['progbits'], SHT['null'], SHT['dynsym']])]
+    return case
+
+
 def gen(ctx):
     rng = ctx.rng
     big = ctx.tier == 'thorough'
@@ -397,6 +465,11 @@ def gen(ctx):
         cases.append(('versym', c))
         if rng.random() < 0.15:
             cases.append(('versym_malformed', _malform_versym(rng, c)))
+    for _ in range(ctx.scale(110, 1500)):
+        c = _gen_combo_case(rng, big)
+        cases.append(('combo', c))
+        if rng.random() < 0.1:
+            cases.append(('combo_malformed', _malform_combo(rng, c)))
     return cases
 
 
@@ -520,19 +593,28 @@ def _nm(s):
     return 'none' if s is None else s.encode('utf-8')
 
 
-def _impl_chain(kind, img, n, idxs):
+def _chain_opener(kind, img, n, elf=None):
+    """() -> section object n as a GNUVerDef/GNUVerNeedSection; from a fresh ELFFile, or from the given one"""
     from elftools.elf.elffile import ELFFile
     from elftools.elf.gnuversions import GNUVerDefSection, GNUVerNeedSection
     cls = GNUVerDefSection if kind == 'verdef' else GNUVerNeedSection
     tag = 'not-a-' + cls.__name__
 
     def open_sec():
-        elf = ELFFile(io.BytesIO(img))
-        sec = elf.get_section(n)
+        f = elf if elf is not None else ELFFile(io.BytesIO(img))
+        sec = f.get_section(n)
         if not isinstance(sec, cls):
             raise type(tag, (Exception,), {})()
         return sec
-    sec = impl_call(open_sec)
+    return open_sec
+
+
+def _impl_chain(kind, img, n, idxs, elf=None, sec=None):
+    """sec: an already instantiated section (or the error list of its instantiation); elf: the ELFFile further
+    section objects are taken from (has_indexes is observed on a second object of the same file)"""
+    open_sec = _chain_opener(kind, img, n, elf)
+    if sec is None:
+        sec = impl_call(open_sec)
     if isinstance(sec, list):
         return [sec, sec, [sec for _ in idxs]] + ([sec] if kind == 'verneed' else []), sec
 
@@ -571,17 +653,22 @@ def _impl_chain(kind, img, n, idxs):
     return res, impl_call(walk_deferred)
 
 
-def _impl_versym(img, n):
+def _versym_opener(img, n, elf=None):
     from elftools.elf.elffile import ELFFile
     from elftools.elf.gnuversions import GNUVerSymSection
 
     def open_sec():
-        elf = ELFFile(io.BytesIO(img))
-        sec = elf.get_section(n)
+        f = elf if elf is not None else ELFFile(io.BytesIO(img))
+        sec = f.get_section(n)
         if not isinstance(sec, GNUVerSymSection):
             raise type('not-a-GNUVerSymSection', (Exception,), {})()
         return sec
-    sec = impl_call(open_sec)
+    return open_sec
+
+
+def _impl_versym(img, n, elf=None, sec=None):
+    if sec is None:
+        sec = impl_call(_versym_opener(img, n, elf))
     if isinstance(sec, list):
         return [sec, sec]
     walk = impl_call(lambda: ['ok', [[s['ndx'], _nm(s.name)] for s in sec.iter_symbols()]])
@@ -749,7 +836,10 @@ def evaluate(ctx, cases):
     files = [c for c in cases if c[0].startswith('file_')]
     if files:
         _evaluate_files(ctx, files)
-    cases = [c for c in cases if not c[0].startswith('file_')]
+    combos = [c for c in cases if c[0].startswith('combo')]
+    for i in range(0, len(combos), 400):
+        _evaluate_combo(ctx, combos[i:i + 400])
+    cases = [c for c in cases if not c[0].startswith('file_') and not c[0].startswith('combo')]
     # bounded batches keep the driver's request/answer texts small in the thorough tier
     for i in range(0, len(cases), 1500):
         _evaluate(ctx, cases[i:i + 1500])
@@ -892,6 +982,152 @@ def _evaluate(ctx, cases):
         comp = _first_diff(names, impl_c, spec_c if in_domain else sx.canon(model))
         ctx.record(kind, c, impl=impl, spec=spec if in_domain else model, model=model, in_domain=in_domain,
                    nontrivial=(nrec >= 2 or malformed or ended), key='%s/%s' % (base, comp or 'agree'))
+
+
+COMBO_NAMES = {'shstr': b'.shstrtab', 'vdef': b'.gnu.version_d', 'vneed': b'.gnu.version_r', 'versym': b'.gnu.version',
+               'symtab': b'.dynsym', 'strd': b'.dynstr', 'strn': b'.verstr', 'strs': b'.symstr'}
+
+
+def _impl_combo(img, index, order, how, d_idxs, n_idxs, deferred):
+    """ONE ELFFile; the three sections are instantiated in [order], only then observed (in the same order)"""
+    from elftools.elf.elffile import ELFFile
+    elf = impl_call(lambda: ELFFile(io.BytesIO(img)))
+    if isinstance(elf, list):
+        return {r: elf for r in order}
+    openers = {'vdef': _chain_opener('verdef', img, index['vdef'], elf),
+               'vneed': _chain_opener('verneed', img, index['vneed'], elf),
+               'versym': _versym_opener(img, index['versym'], elf)}
+    secs = {}
+    if how == 'iter_sections':
+        # every section of the file is instantiated, in table order, before any is used
+        allsecs = impl_call(lambda: list(elf.iter_sections()))
+        for r in order:
+            secs[r] = allsecs if (allsecs and allsecs[0] == 'err') else allsecs[index[r]]
+    elif how == 'by_name':
+        for r in order:
+            secs[r] = impl_call(elf.get_section_by_name, COMBO_NAMES[r].decode())
+    else:
+        for r in order:
+            secs[r] = impl_call(openers[r])
+    out = {}
+    for r in order:
+        if r == 'versym':
+            out[r] = _impl_versym(img, index[r], elf, secs[r])
+        else:
+            obs, dfr = _impl_chain('verdef' if r == 'vdef' else 'verneed', img, index[r],
+                                   d_idxs if r == 'vdef' else n_idxs, elf, secs[r])
+            out[r] = obs + ([dfr] if deferred else [])
+    return out
+
+
+def _evaluate_combo(ctx, cases):
+    """several version sections in ONE file / ONE ELFFile object, each linked to its own string table"""
+    from tools.lib import sx
+    drv = ctx.driver
+    reqs, spans = [], []
+    for kind, c in cases:
+        le, is64 = c[0], c[1]
+        st = len(reqs)
+        for base, part in (('verdef', c[3]), ('verneed', c[4])):
+            for e in part[0]:
+                reqs.append(['enc_' + base, le, is64, e])
+                for a in e[-1]:
+                    reqs.append(['enc_verdaux' if base == 'verdef' else 'enc_vernaux', le, is64, a])
+        for v, s in c[5][0]:
+            reqs.append(['enc_versym', le, is64, v])
+            reqs.append(['enc_dynsym', le, is64, s])
+        spans.append((st, len(reqs)))
+    encs = drv.batch(reqs)
+    images, hreqs, hspans = [], [], []
+    for (kind, c), (st, en) in zip(cases, spans):
+        e = encs[st:en]
+        fits = all(x[0] == 1 for x in e)
+        le, is64, machine = c[0], c[1], c[2]
+        mal = c[10]
+        k = 0
+        datas = {}
+        for base, part in (('verdef', c[3]), ('verneed', c[4])):
+            per = []
+            for ent in part[0]:
+                eb = e[k][1]
+                k += 1
+                ab = [x[1] for x in e[k:k + len(ent[-1])]]
+                k += len(ent[-1])
+                per.append((eb, ab))
+            datas[base] = _chain_section(base, part[0], part[1], per)
+        ventries, vs_ent, sym_ent, vs_bg, sym_bg, s_strtab, symtype = c[5]
+        vbuf, sbuf = bytearray(vs_bg), bytearray(sym_bg)
+        for i in range(len(ventries)):
+            _overlay(vbuf, i * vs_ent, e[k + 2 * i][1])
+            _overlay(sbuf, i * sym_ent, e[k + 2 * i + 1][1])
+        nv = len(ventries)
+        ssize = max(nv, len(sym_bg) // sym_ent) * sym_ent
+
+        def stype(role):
+            return mal[2] if mal[0] == 'linktype' and mal[1] == role else SHT['strtab']
+        secs = {'shstr': dict(type=SHT['strtab'], data=b'', name=COMBO_NAMES['shstr'], flags=0),
+                'vdef': dict(type=SHT['verdef'], data=datas['verdef'], link_role='strd', info=len(c[3][0]),
+                             name=COMBO_NAMES['vdef']),
+                'vneed': dict(type=SHT['verneed'], data=datas['verneed'], link_role='strn', info=len(c[4][0]),
+                              name=COMBO_NAMES['vneed']),
+                'versym': dict(type=SHT['versym'], data=bytes(vbuf[:nv * vs_ent]), link_role='symtab', info=0,
+                               size=nv * vs_ent, entsize=vs_ent, name=COMBO_NAMES['versym']),
+                'symtab': dict(type=symtype, data=bytes(sbuf[:ssize]), link_role='strs', info=1, size=ssize,
+                               entsize=sym_ent, name=COMBO_NAMES['symtab']),
+                'strd': dict(type=stype('strd'), data=c[3][2], name=COMBO_NAMES['strd']),
+                'strn': dict(type=stype('strn'), data=c[4][2], name=COMBO_NAMES['strn']),
+                'strs': dict(type=stype('strs'), data=s_strtab, name=COMBO_NAMES['strs'])}
+        im = _Image(le, is64, machine, c[6], secs)
+        hr = im.header_reqs()
+        hspans.append((len(hreqs), len(hreqs) + len(hr)))
+        hreqs += hr
+        images.append((im, fits))
+    hencs = drv.batch(hreqs)
+    creqs, built = [], []
+    for (kind, c), (im, fits), (st, en) in zip(cases, images, hspans):
+        img, hok = im.finish(hencs[st:en])
+        shdrs = im.shdr_abstract()
+        creqs.append(['verdef', c[0], c[1], img, shdrs, im.index['vdef'], c[3][0], c[3][3]])
+        creqs.append(['verneed', c[0], c[1], img, shdrs, im.index['vneed'], c[4][0], c[4][3]])
+        creqs.append(['versym', c[0], c[1], img, shdrs, im.index['versym'], c[5][0]])
+        built.append((img, im.index, fits and hok))
+    answers = drv.batch(creqs)
+    obs_names = {'vdef': ['iter_versions', 'num_versions', 'get_version'],
+                 'vneed': ['iter_versions', 'num_versions', 'get_version', 'has_indexes'],
+                 'versym': ['iter_symbols', 'num_symbols']}
+    for j, ((kind, c), (img, index, fits)) in enumerate(zip(cases, built)):
+        ad, an, av = answers[3 * j:3 * j + 3]
+        malformed = kind.endswith('_malformed')
+        in_domain = fits and ad[0] == 1 and an[0] == 1 and av[0] == 1 and not malformed
+        model = {'vdef': [ad[1], ad[3], ad[5]], 'vneed': [an[1], an[3], an[5], an[7]], 'versym': [av[1], av[3]]}
+        spec = {'vdef': [ad[2], ad[4], ad[6]], 'vneed': [an[2], an[4], an[6], an[8]], 'versym': [av[2], av[4]]}
+        if in_domain:
+            for r in ('vdef', 'vneed'):
+                model[r] = model[r] + [model[r][0]]
+                spec[r] = spec[r] + [spec[r][0]]
+        order, how = list(c[7]), c[8]
+        names, impl_f, model_f, spec_f = [], [], [], []
+        # the same file, a fresh ELFFile per run: the three sections instantiated in [order], then in reverse order
+        for tag, o in (('', order), ('reversed:', order[::-1])):
+            got = _impl_combo(img, index, o, how, c[3][3], c[4][3], in_domain)
+            for r in ('vdef', 'vneed', 'versym'):
+                nm = obs_names[r] + (['iter_versions_deferred'] if in_domain and r != 'versym' else [])
+                names += ['%s%s.%s' % (tag, r, x) for x in nm]
+                impl_f += got[r] if not (got[r] and got[r][0] == 'err') else [got[r]] * len(nm)
+                model_f += model[r]
+                spec_f += spec[r]
+        if not in_domain:
+            model_f = _replace_invalid_utf8(model_f)
+        ctx.bump('in_domain', kind + ':' + str(in_domain))
+        ctx.bump('class/order', ('64' if c[1] else '32') + ('LE' if c[0] else 'BE'))
+        ctx.bump('combo_tables', c[9])
+        ctx.bump('combo_instantiation', how + ':' + '>'.join(order))
+        if not malformed and not in_domain:
+            ctx.bump('generator_left_domain', kind)
+        ref = spec_f if in_domain else model_f
+        comp = _first_diff(names, sx.canon(impl_f), sx.canon(ref))
+        ctx.record(kind, c, impl=impl_f, spec=ref, model=model_f, in_domain=in_domain, nontrivial=True,
+                   key='combo/%s' % ((comp or 'agree').replace('reversed:', '')))
 
 
 def _fixed_garbage(n):
